@@ -862,8 +862,8 @@ def build_C09(ctx, tier, rnd):
     # same query repeated many times) - anything that accumulates or is cached across calls
     al = gen.Alphabet(ctx)
     wl = ['q', 'q', 'q', 'p', 'c', 's', 'ok', 'fail', 'u1', 'u2', 'u3', 'u1b', 'rb1', 'rb2', 'rb12', 'ck2', 'upnone', 'uperr', 'udl2']
-    hs += gen.random_walks(al, wl, [1] * len(wl), 3 if tier == 'quick' else 40, (400, 600), rnd, name='long')
-    hs += [(n_ + 'rn', renumber(o_)) for n_, o_ in hs[-1:]]
+    longs = [('long%d' % i, o_) for i, (_, o_) in enumerate(gen.random_walks(al, wl, [1] * len(wl), 3 if tier == 'quick' else 40, (400, 600), rnd, name='long'))]
+    hs += longs + [(n_ + 'rn', renumber(o_)) for n_, o_ in longs[-1:]]     # (short names: the name becomes a directory)
     return hs
 
 
